@@ -1,0 +1,15 @@
+//go:build verif
+
+package quic
+
+// Export shim for the verification harness in /verif (property C16). Compiled only with
+// -tags verif. Adds no behaviour: it forwards to connIDGenerator.AddConnRunner with the
+// unexported argument types built from a recording VerifConnIDCallbacks, which is what
+// Conn.AddPath does for the packetHandlerMap of an additional Transport.
+func (m *connIDGenerator) VerifAddConnRunner(cb *VerifConnIDCallbacks) {
+	m.AddConnRunner(verifRunner{cb}, connRunnerCallbacks{
+		AddConnectionID:    cb.AddConnectionID,
+		RemoveConnectionID: cb.RemoveConnectionID,
+		ReplaceWithClosed:  cb.ReplaceWithClosed,
+	})
+}
